@@ -36,7 +36,7 @@ THEOREMS = [
     "BinStore.setChildren_rej_id_any", "BinStore.step_rej_id_any", "BinStore.assertions_off_same",
     "BinStore.anc_complete", "BinStore.acyc_reparent",
     # bridge two-slot store -> binary trees (BTree of C04 / C12): lean/BigtreeProofs/Properties/BinBridge.lean
-    "BinBridge.btreeOf_fuel", "BinBridge.btreeOf_unfold", "BinBridge.btreeOf_ids", "BinBridge.btreeOf_slots",
+    "BinBridge.btreeOf_fuel", "BinBridge.btreeOf_unfold", "BinBridge.btreeOf_ids", "BinBridge.btree_partition", "BinBridge.btreeOf_slots",
     "BinBridge.inorder_transfer", "BinBridge.is_leaf_transfer",
 ]
 PROOF_IMPORTS = ["BigtreeProofs.Properties.C11", "BigtreeProofs.Properties.BinBridge"]
